@@ -67,7 +67,7 @@ pub(crate) fn schema_definition(p: &mut Parser) {
 /// See: https://spec.graphql.org/October2021/#SchemaExtension
 ///
 /// *SchemaExtension*:
-///     **extend** **schema** Directives[Const]? **{** RootOperationTypeDefinition* **}**
+///     **extend** **schema** Directives[Const]? **{** RootOperationTypeDefinition+ **}**
 ///     **extend** **schema** Directives[Const]
 pub(crate) fn schema_extension(p: &mut Parser) {
     let _g = p.start_node(SyntaxKind::SCHEMA_EXTENSION);
@@ -82,12 +82,18 @@ pub(crate) fn schema_extension(p: &mut Parser) {
     }
 
     if let Some(T!['{']) = p.peek() {
+        // Empty braces are reported right here, whether or not there are directives.
+        meets_requirements = true;
         p.bump(S!['{']);
 
+        let mut has_root_operation_types = false;
         p.peek_while_kind(TokenKind::Name, |p| {
-            meets_requirements = true;
+            has_root_operation_types = true;
             root_operation_type_definition(p);
         });
+        if !has_root_operation_types {
+            p.err("expected Root Operation Type Definition");
+        }
 
         p.expect(T!['}'], S!['}']);
     }
